@@ -32,6 +32,7 @@ func runC08(e *Env) error {
 		"(i) prefix operators (-, +, not, doubled, mixed) in front of subscripted operands (context list, list literal, map, nested list, range(), call results, attribute paths, parenthesised) with literal / computed / string / nested / chained subscripts, followed by nothing, a filter, a binary operator on either side, a comparison, a test or a conditional, in every syntactic position, through the model and against the element put there; " +
 		"(j) integer literals 0..99 and a ladder up to 2^53 written with 0..3 leading zeros, alone, as either operand of every operator, without spaces, as arguments / defaults / subscripts / hash keys / list elements and in every tag, decimal fractions with padded integer part and trailing zeros, random trees with every literal padded, against the base-ten value of the digits; " +
 		"(k) results kept (set variable, list / hash element, conditional arm, macro call defined locally / imported by name / renamed / through a module alias / _self / nested / collected by merge in a loop), every operand then reassigned / shadowed / advanced, finally printed in ten ways, against the value the expression prints on the spot, and arguments of kept calls evaluated exactly once; " +
+		"(l) string literals written from values (every string of length ≤ 3 over \\ ' \" a { } and longer ones) with single and double quotes, backslashes and the delimiter escaped, the other quote and braces escaped or not, in 25 positions (print, ~, comparison, hash key / value, list element, subscript, filter / function / macro argument, macro default, set, if, include-with, for, large template), against the value; " +
 		"non-trivial = at least two operators; distinct by source"
 	ctx := map[string]any{"a": 7, "b": 2, "c": 3, "s": "ab", "u": "b", "t": true, "f": false, "l": []interface{}{1, 2, "b"}, "z": 0}
 	atomSets := [][3]GExpr{
@@ -231,6 +232,10 @@ func runC08(e *Env) error {
 	}
 	// (j) number literals written with leading / trailing zeros (c08_literals.go)
 	if err := c08LiteralSpellings(e); err != nil {
+		return err
+	}
+	// (l) string literals written from values: escaped backslashes and quotes (c08_quotes.go)
+	if err := c08QuoteEscapes(e); err != nil {
 		return err
 	}
 	// (k) results kept and used after their operands were reassigned (c08_kept.go)
